@@ -16,6 +16,7 @@ import pandapipes as pp
 from pandapipes import toolbox as tb
 
 ID = "C17"
+CASE_WEIGHT = 3   # relative cost of one case (pool sizing)
 LEVEL = "model_checking"
 RULE = ("state = reference model of the network keyed on element names (tables, connections by junction/pipe name, "
         "attributes); transitions = real toolbox calls (reindex_junctions / reindex_pipes / reindex_elements with swap, "
